@@ -49,7 +49,7 @@ KNOWN_WRITES = {
     ("ActionTypeHint.get_class_parser", "parser.link_arguments(**link_kwargs)"): "fresh-object",
     ("ActionTypeHint.get_class_parser", "parser.required_args.remove(key)"): "fresh-object",
     ("Action._check_type_", "self._check_type_kwargs"): "memo-of-constant:parameter names of _check_type",
-    ("DefaultHelpFormatter._expand_help", "action.default"): "restored:set for the substitution and put back",
+    ("DefaultHelpFormatter._expand_help", "action.default"): "restored:set for the substitution, put back in a finally (fact helpDefaultFinally)",
     ("ActionConfigFile.apply_config", "cfg.__dict__.update(cfg_merged.__dict__)"): "value-object:namespace being built",
     ("ActionYesNo.__call__", "setattr(args[1], self.dest, not value)"): "value-object:namespace being built",
     ("ActionYesNo.__call__", "setattr(args[1], self.dest, value)"): "value-object:namespace being built",
@@ -689,6 +689,35 @@ def fact_linked_on_fresh_only(src):
     return bool(ok)
 
 
+def fact_help_default_finally(src):
+    """DefaultHelpFormatter._expand_help: every write `… = action.default = …` sits in the body of a `try` whose `finally`
+    assigns action.default back (from a name bound before the try)"""
+    f = src.func("DefaultHelpFormatter._expand_help")
+    writes = [n for n in src.own_nodes(f) if isinstance(n, ast.Assign) and any(ast.unparse(t) == "action.default" for t in n.targets)]
+    if not writes:
+        return False
+    restores = []
+    for t in src.own_nodes(f):
+        if isinstance(t, ast.Try) and t.finalbody:
+            for st in t.finalbody:
+                if isinstance(st, ast.Assign) and [ast.unparse(x) for x in st.targets] == ["action.default"] and isinstance(st.value, ast.Name):
+                    restores.append((t, st))
+    if len(restores) != 1:
+        return False
+    tr, rst = restores[0]
+    for w in writes:
+        if w is rst:
+            continue
+        if not any(contains(b, lambda x: x is w) for b in tr.body):
+            return False
+    # the restored name is bound from action.default before the try
+    i = f.body.index(tr) if tr in f.body else None
+    if i is None:
+        return False
+    return any(isinstance(st, ast.Assign) and any(isinstance(t, ast.Name) and t.id == rst.value.id for t in st.targets)
+               and ast.unparse(st.value) == "action.default" for st in f.body[:i])
+
+
 def fact_shtab_guarded(src):
     f = src.func("handle_completions")
     for n in src.own_nodes(f):
@@ -794,6 +823,7 @@ def generate(problems):
         "linkedOnFreshOnly": fact_linked_on_fresh_only(src),
         "shtabGuarded": fact_shtab_guarded(src),
         "wiringAtBuildOnly": fact_wiring(src),
+        "helpDefaultFinally": fact_help_default_finally(src),
     }
     pc_deletes = [(f, t) for f, t, _, c in writes if c == "pending-delete"]
     prows = []
